@@ -335,7 +335,11 @@ func Main[C any](t *testing.T, spec Spec[C]) {
 			continue
 		}
 		// confirm (determinism), minimise, write replay
-		r2 := spec.Run(t, c)
+		flaky := res.V.Kind == "data-race" // the detector's bounded shadow history makes a report a may-, not a must-event
+		r2 := res
+		if !flaky {
+			r2 = spec.Run(t, c)
+		}
 		if r2.V == nil || r2.V.Signature != sig {
 			// The first execution may have hit a code path for the first time in
 			// this process (lazy initialisation draws). Two further executions
@@ -367,12 +371,21 @@ func Main[C any](t *testing.T, spec Spec[C]) {
 		minC, tried, fromN, toN := minimise(t, spec, c, sig, 40*time.Second)
 		Verbose = true
 		rf := spec.Run(t, minC)
+		for i := 0; flaky && i < 4 && (rf.V == nil || rf.V.Signature != sig); i++ {
+			rf = spec.Run(t, minC)
+		}
 		Verbose = false
 		if rf.V == nil || rf.V.Signature != sig {
 			minC = c
 			Verbose = true
 			rf = spec.Run(t, c)
+			for i := 0; flaky && i < 4 && (rf.V == nil || rf.V.Signature != sig); i++ {
+				rf = spec.Run(t, c)
+			}
 			Verbose = false
+			if flaky && (rf.V == nil || rf.V.Signature != sig) {
+				rf = res // keep the report of the first execution
+			}
 		}
 		cb, _ := json.Marshal(minC)
 		rp := replayFile{Format: 1, Property: spec.ID, Seed: seed, Case: cb, Violation: rf.V, SchedHash: fmt.Sprintf("%x", rf.SchedHash),
@@ -457,6 +470,12 @@ func replayMain[C any](t *testing.T, spec Spec[C], path string) {
 	Verbose = true
 	simos.DescribeHex = true
 	res := spec.Run(t, c)
+	if rf.Violation != nil && rf.Violation.Kind == "data-race" {
+		// the race detector keeps a bounded access history: give it a few executions
+		for i := 0; i < 8 && (res.V == nil || res.V.Signature != rf.Violation.Signature); i++ {
+			res = spec.Run(t, c)
+		}
+	}
 	out := map[string]any{"property": spec.ID, "path": path, "expected": rf.Violation, "got": res.V,
 		"sched_hash_expected": rf.SchedHash, "sched_hash_got": fmt.Sprintf("%x", res.SchedHash), "trace": tail(res.Trace, 400)}
 	ob, _ := json.MarshalIndent(out, "", " ")
